@@ -146,6 +146,7 @@ func txProgram(t *rapid.T, maxSteps int) drive.Program {
 				if rapid.IntRange(0, 3).Draw(t, "isdel") == 0 {
 					body = append(body, drive.TxOp{Op: "del", K: k})
 				} else {
+					vo.KeyLen = len(p.Keys[k]) // exact record-boundary sizes need the key length
 					body = append(body, drive.TxOp{Op: "put", K: k, V: gen.Value(t, tag, vo)})
 					tag++
 				}
@@ -458,6 +459,7 @@ func genTorn(t *rapid.T) TornCase {
 	vo := gen.ValOpts{Big: rapid.IntRange(0, 3).Draw(t, "final_big") == 0}
 	for j := 0; j < m; j++ {
 		k := (j*7 + rapid.IntRange(0, nk-1).Draw(t, "fk")) % nk
+		vo.KeyLen = len(p.Keys[k])
 		body = append(body, drive.TxOp{Op: "put", K: k, V: gen.Value(t, tag, vo)})
 		tag++
 	}
